@@ -95,9 +95,11 @@ impl Blob {
         // Write blob data
         let length = std::io::copy(reader, writer).write_err("Failed to write blob data")?;
 
-        // Update blob section header with actual lenght
+        // Update blob section header with actual length. The section length includes
+        // the section header and the padding to the next 4-byte-aligned offset.
         let end_offset = writer.physical_position()?;
-        section_header.section_length = length;
+        let unpadded_length = BlobSectionHeader::SIZE + length;
+        section_header.section_length = unpadded_length + (4 - unpadded_length % 4) % 4;
         writer.physical_seek(start_offset)?;
         section_header.to_writer(writer)?;
         writer.physical_seek(end_offset)?;
@@ -118,6 +120,8 @@ struct BlobSectionHeader {
 }
 
 impl BlobSectionHeader {
+    const SIZE: u64 = 16;
+
     fn from_array(buffer: &[u8; 16]) -> Result<Self> {
         let section_id = buffer[0];
         if section_id != 0 {
